@@ -19,10 +19,10 @@ type Page struct {
 
 // Spec describes a small, valid subtitle stream for BuildTS.
 type Spec struct {
-	PID    uint16 `json:"pid,omitempty"`    // 0 = 0x100
-	Pages  []Page `json:"pages"`            // ascending AtMs
-	EndMs  int64  `json:"end_ms,omitempty"` // time of the final (stuffing only) PES; 0 = last page + 2000
-	Serial bool   `json:"serial,omitempty"` // magazine serial mode (C11)
+	PID    uint16 `json:"pid,omitempty"`     // 0 = 0x100
+	Pages  []Page `json:"pages"`             // ascending AtMs
+	EndMs  int64  `json:"end_ms,omitempty"`  // time of the final (stuffing only) PES; 0 = last page + 2000
+	Serial bool   `json:"serial,omitempty"`  // magazine serial mode (C11)
 	BaseMs int64  `json:"base_ms,omitempty"` // presentation time of the first PES in the stream's own clock; 0 = 10000
 }
 
